@@ -240,6 +240,20 @@ impl Out {
     }
 }
 
+/// Where a worker currently is inside the open case; written to the event stream so that the
+/// supervisor can attribute a process death to a phase (`crash:<SIGNAL>/<phase>`).
+static PHASE_FILE: std::sync::OnceLock<Option<String>> = std::sync::OnceLock::new();
+pub fn set_phase_file(path: Option<&str>) {
+    let _ = PHASE_FILE.set(path.map(String::from));
+}
+pub fn phase(name: &str) {
+    if let Some(Some(p)) = PHASE_FILE.get()
+        && let Ok(mut f) = std::fs::OpenOptions::new().append(true).open(p)
+    {
+        let _ = writeln!(f, "{}", json!({"ev":"phase","phase":name}));
+    }
+}
+
 // ---------------------------------------------------------------- panic capture
 
 thread_local! {
